@@ -296,6 +296,20 @@ pub fn build(
         })
         .collect::<anyhow::Result<Vec<_>>>()?;
 
+    for (i, argument) in arguments.iter().enumerate() {
+        if let Argument::Field(name, _) = argument {
+            if arguments[..i]
+                .iter()
+                .any(|a| matches!(a, Argument::Field(n, _) if n == name))
+            {
+                anyhow::bail!(
+                    "parameter `{name}` is defined more than once in function `{}`",
+                    function.name
+                );
+            }
+        }
+    }
+
     let return_type = function
         .return_type
         .as_ref()
